@@ -15,7 +15,7 @@ R-C05-7  the range-checking decomposition lies on every completing path of the o
 import ast
 import itertools
 
-from ..hints import Valuer, Undecidable, NeedCase
+from ..hints import Valuer, Undecidable, NeedCase, pre_assume, replay
 from ..loader import norm, AnalysisError, parents
 from ..poly import P, poly_of
 from ..relations import rel, gadget_relation, show
@@ -324,7 +324,7 @@ def rule_sign(repo, rule):
                 n_sites += 1
                 guarded = False
                 for s in arm.body:
-                    if s.lineno >= sl.lineno:
+                    if any(x is sl for x in ast.walk(s)):
                         break
                     if isinstance(s, ast.If) and any(isinstance(b, ast.Raise) for b in s.body) and norm(s.test) in (
                             "%s < 0" % p, "0 > %s" % p, "%s <= -1" % p):
@@ -354,7 +354,10 @@ def rule_divisor(repo, rule):
         for u in uses:
             operand = u.right if isinstance(u, ast.BinOp) else u.args[0]
             kind = norm(operand)
-            ok = any(norm(t.test) == "%s == 0" % kind and t.lineno < u.lineno for t in tests)
+            from ..hints import paths_to as _pt
+            upaths = _pt(fi.node, u)
+            ok = bool(upaths) and all(any(c is t.test and not pol and norm(t.test) == "%s == 0" % kind for t in tests for c, pol in pth.conds)
+                                      for pth in upaths)
             if ok:
                 rule.ok(fi.loc(u), fi.fq, "%s: `%s == 0` raises before `%s`" % (name, kind, norm(u)[:50]))
             else:
@@ -413,6 +416,87 @@ def rule_domain(repo, rule):
                                "%s/domain/%s" % (fi.fq, norm(leak)[:40]))
             else:
                 rule.ok(where, fi.fq, term, "the decomposition lies on every completing path of the arm")
+
+
+def rule_no_operand_mutation(repo, rule):
+    """An operator returns a new value and leaves its operands alone: no statement of a dunder method assigns to `.value`
+    (or `.lc`) of an object that may BE one of the operands.  Flow-sensitive may-alias analysis over the method body: a
+    name is {operand p, ...} after `name = p` / `name = other_name`, fresh after any other assignment; loops are iterated
+    to a fixed point, branches joined."""
+    n_sites = 0
+    for mod, cn in ((RT, "LinComb"), ("pysnark.boolean", "LinCombBool"), ("pysnark.fixedpoint", "LinCombFxp")):
+        ci = repo.cls(mod, cn)
+        for name, fi in sorted(ci.methods.items()):
+            if not (name.startswith("__") and name.endswith("__")) or name in ("__init__", "__new__", "__setattr__", "__setitem__") \
+                    or not isinstance(fi.node, ast.FunctionDef):
+                continue
+            params = set(fi.params)
+            found = []
+
+            def join(a, b):
+                return {k: a.get(k, frozenset(["fresh"])) | b.get(k, frozenset(["fresh"])) for k in set(a) | set(b)}
+
+            def run(stmts, st):
+                for s in stmts:
+                    if isinstance(s, ast.Assign) and len(s.targets) == 1 and isinstance(s.targets[0], ast.Name):
+                        v = s.value
+                        if isinstance(v, ast.Name):
+                            st[s.targets[0].id] = st.get(v.id, frozenset([v.id]) if v.id in params else frozenset(["fresh"]))
+                        elif isinstance(v, ast.IfExp) and all(isinstance(x, ast.Name) for x in (v.body, v.orelse)):
+                            st[s.targets[0].id] = frozenset().union(*[st.get(x.id, frozenset([x.id]) if x.id in params else frozenset(["fresh"]))
+                                                                      for x in (v.body, v.orelse)])
+                        else:
+                            st[s.targets[0].id] = frozenset(["fresh"])
+                    elif isinstance(s, (ast.Assign, ast.AugAssign)):
+                        for t in (s.targets if isinstance(s, ast.Assign) else [s.target]):
+                            if isinstance(t, ast.Attribute) and t.attr in ("value", "lc") and isinstance(t.value, ast.Name):
+                                who = st.get(t.value.id, frozenset([t.value.id]) if t.value.id in params else frozenset(["fresh"]))
+                                hit = sorted(w for w in who if w in params)
+                                found.append((s, t, hit))
+                    elif isinstance(s, ast.If):
+                        a, b = dict(st), dict(st)
+                        run(s.body, a)
+                        run(s.orelse, b)
+                        st.clear()
+                        st.update(join(a, b))
+                    elif isinstance(s, (ast.For, ast.While)):
+                        for _ in range(3):
+                            b = dict(st)
+                            if isinstance(s, ast.For):
+                                for x in ast.walk(s.target):
+                                    if isinstance(x, ast.Name):
+                                        b[x.id] = frozenset(["fresh"])
+                            run(s.body, b)
+                            j = join(st, b)
+                            if j == st:
+                                break
+                            st.clear()
+                            st.update(j)
+                        # findings of the last, widest pass are the ones that count
+                    elif isinstance(s, (ast.With, ast.Try)):
+                        run(getattr(s, "body", []), st)
+                        for h in getattr(s, "handlers", []) or []:
+                            run(h.body, st)
+                        run(getattr(s, "finalbody", []) or [], st)
+            run(fi.node.body, {p: frozenset([p]) for p in params})
+            seen = set()
+            for s, t, hit in found:
+                if id(s) in seen:
+                    continue
+                n_sites += 1
+                if hit:
+                    seen.add(id(s))
+                    rule.violation(fi.loc(s), fi.fq, norm(s), "the operator writes `%s` of an object that can be its own operand `%s`: "
+                                   "evaluating `%s` changes the operand the caller still holds" % (t.attr, hit[0], name.strip("_")),
+                                   "%s/mutates/%s" % (fi.fq, hit[0]))
+            clean = [s for s, t, hit in found if not hit and id(s) not in seen]
+            done = set()
+            for s in clean:
+                if id(s) in done or any(id(s) == id(s2) and h for s2, _t, h in found):
+                    continue
+                done.add(id(s))
+                rule.ok(fi.loc(s), fi.fq, norm(s), "written object is a fresh intermediate on every path")
+    return n_sites
 
 
 def rule_no_reduction(repo, rule):
@@ -478,18 +562,11 @@ def rule_primitive_hints(repo, rule):
                         v.assume(ast.parse("is_guard()", mode="eval").body, True)
                         v.assume(ast.parse("ignore_errors()", mode="eval").body, False)
                         v.assume(reft, truth)
-                        for t, pol in path.conds:
-                            v.assume(t, pol)
+                        pre_assume(v, path)
                         return v
 
                     def build(v, path=path, truth=truth):
-                        for nm, node in path.assigns:
-                            try:
-                                v.env[nm] = v.val(node)
-                            except Undecidable:
-                                v.env[nm] = P.sym("?%s" % nm)
-                        for t, pol in path.conds:
-                            v.assume(t, pol)
+                        replay(v, path)
                         return v._p(r.value) - P.const(1 if truth else 0)
                     for desc, p, _v in all_cases(build, assumptions):
                         n += 1
@@ -617,6 +694,8 @@ def check(repo, rep, tier):
     rule_domain(repo, r7)
     r8 = rep.rule("R-C05-8", "integer operators report Python's integer, not its residue mod p", floor=1)
     rule_no_reduction(repo, r8)
+    r14 = rep.rule("R-C05-14", "operators leave their operands unchanged (no write to .value/.lc of an object that may be an operand)", floor=2)
+    rule_no_operand_mutation(repo, r14)
     r9 = rep.rule("R-C05-9", "comparison primitives hint Python's own truth value (over the integers)", floor=2)
     rule_primitive_hints(repo, r9)
     r10 = rep.rule("R-C05-10", "`~` is applied to Boolean wires only, never to plain integers", floor=2)
